@@ -40,6 +40,8 @@ package network
 //@   ensures #at-target-no-action err == nil && action == "noAction" ==> d.CurrentPriv == target && nextPriv == target
 //@   ensures #otherwise-level-unknown err == nil && action != "noAction" ==> d.CurrentPriv == "UNKNOWN"
 //@   ensures #action-is-one-of err == nil ==> action == "noAction" || action == "escalateAction" || action == "deescalateAction"
+//@   at return assert #a-cached-level-that-fits-the-prompt-is-believed-before-the-target err == nil && (exists k int :: 0 <= k && k < len(possiblePrivs) && possiblePrivs[k] == old(d.CurrentPriv)) ==> current == old(d.CurrentPriv)
+//@   at return assert #else-the-target-if-it-fits-else-the-first-candidate err == nil && !(exists k int :: 0 <= k && k < len(possiblePrivs) && possiblePrivs[k] == old(d.CurrentPriv)) ==> current == ((exists k int :: 0 <= k && k < len(possiblePrivs) && possiblePrivs[k] == target) ? level(d, target).Name : possiblePrivs[0])
 //@   at return assert #escalate-is-the-child-step err == nil && action == "escalateAction" ==> nextPriv == level(d, mapTo[1]).Name && prevOf(d, mapTo[1]) == current && soundPath(d, mapTo, current, target)
 //@   at return assert #deescalate-is-the-parent-step err == nil && action == "deescalateAction" ==> nextPriv == current && prevOf(d, current) == mapTo[1] && soundPath(d, mapTo, current, target)
 
